@@ -135,8 +135,45 @@ def same_value(a, b) -> bool:
 
 # ---------------------------------------------------------------- encode
 def varbind_node(oid_arcs, val, opts=None) -> Node:
+    """opts: ow/w (length widths), name_tag / name_hex (replace the name's tag or
+    contents, e.g. RELATIVE-OID names), extra_hex (junk after the value, inside the
+    varbind), only_name (no value at all), empty (a varbind with no content)."""
     opts = opts or {}
-    return seq([prim(0x06, ber.oid_content(oid_arcs), opts.get("ow", 0), name="name"), value_node(val)], opts.get("w", 0), name="varbind")
+    if opts.get("empty"):
+        return seq([], opts.get("w", 0), name="varbind")
+    content = bytes.fromhex(opts["name_hex"]) if "name_hex" in opts else ber.oid_content(oid_arcs)
+    name = prim(opts.get("name_tag", 0x06), content, opts.get("ow", 0), name="name")
+    kids = [name]
+    if not opts.get("only_name"):
+        kids.append(value_node(val))
+    if opts.get("extra_hex"):
+        x = Node(0, content=b"")
+        x.raw = bytes.fromhex(opts["extra_hex"])
+        kids.append(x)
+    return seq(kids, opts.get("w", 0), name="varbind")
+
+
+def node_offsets(tree: Node):
+    """[(start, content_start, end)] for every node of the tree in walk order,
+    as offsets into tree.encode()."""
+    out = []
+
+    def rec(n, start):
+        enc = n.encode()
+        if n.raw is not None:
+            out.append((start, start, start + len(enc)))
+            return len(enc)
+        body = n.body()
+        hdr = len(enc) - len(body)
+        out.append((start, start + hdr, start + len(enc)))
+        if n.children is not None:
+            p = start + hdr
+            for c in n.children:
+                p += rec(c, p)
+        return len(enc)
+
+    rec(tree, 0)
+    return out
 
 
 def pdu_node(tag, request_id, error_status, error_index, varbinds, opts=None) -> Node:
